@@ -599,15 +599,15 @@ ADDED = {
     "C01": "Also: every one of the 726 kinds once per pass through the whole oracle (TestEveryKindC01), encoding into a reused "
            "buffer whose spare capacity holds an earlier packet, copy-through of inferred columns (decode into ColAuto targets, "
            "encode them again through both write paths), raw copy through ColRaw / ColLowCardinalityRaw, accessor agreement "
-           "(iterators, Go-map Append, Nullable helpers), blocks of 4095-10000 rows, strings on both length-prefix boundaries.",
+           "(iterators, Go-map Append, Nullable helpers), blocks of 4095-10000 rows, strings on both length-prefix boundaries. An Enum16 member name ending in an escaped backslash (all shapes, tuples).",
     "C02": "Also: streamed input (OnInput rounds, rows with io.EOF, no rows at all), blocks of 4 KiB-1.3 MiB, strings on the "
            "length-prefix boundaries (127/128, 16383/16384) and bodies to 200 KB, the same setting key on both levels, an earlier "
            "exchange (select / exception / insert / ping) on the same client. A quarter of the cases run with instrumentation on and a recording SDK tracer (the wire carries the recorded Do span).",
     "C03": "Also: data blocks with 4-256 KiB values, a server pausing inside a packet for longer than the read timeout, an "
-           "earlier exchange on the same client, a context with a far deadline. Exception texts of 131071-230000 bytes.",
+           "earlier exchange on the same client, a context with a far deadline. Exception texts of 131071-230000 bytes. Progress packets without a delta, a quarter of the clients instrumented, LowCardinality(String) columns of 257/300 distinct values per block; which error a call with a failed callback reports is counted, not asserted.",
     "C04": "Also: fault kinds reset (reads and all later writes fail), bad-input (the encoder rejects the caller's columns after "
            "the query went out), callback errors that wrap a *ch.Exception; 0-2 earlier exception queries on the same client; "
-           "a Ping with a cancelled context before the follow-up. Streaming callbacks that wait on their context (no further batch once the failure is on its way); exception packets cut at any byte of a three-element chain.",
+           "a Ping with a cancelled context before the follow-up. Streaming callbacks that wait on their context (no further batch once the failure is on its way); exception packets cut at any byte of a three-element chain. Gated scenarios at lower revisions on either side; unit TestC04ChattyServerSenderFailure (the sender fails while the server streams packets faster than the read timeout).",
     "C05": "Also: blocks spread over 2-4 frames (and empty frames in between) with a later frame altered, decoded through "
            "proto.Reader - the error must still carry the CorruptedDataErr; ZSTD frames whose inner content size exceeds the limit. Client unit TestC05ClientProducedFrames: compressed connections with large incompressible values, every frame written must verify and decompress to the block encoded.",
     "C06": "Also: pair mutations (two structural fields near the caps at once), decoding into reused targets, hostile type strings "
@@ -616,27 +616,27 @@ ADDED = {
            "without targets, messages whose last field is a 64 KiB-3 MiB string (sampled cuts), blocks of 4095-10000 rows. Query messages with 300-1500 settings or parameters.",
     "C08": "Also: every typed read of proto.Reader against every Put of proto.Buffer (primitive level), truncated prefixes "
            "(identical error under every segmentation), every catalog kind under one-byte and two-piece delivery, client level: "
-           "pauses inside packets, NoTimeout with a short handshake timeout, a gap before the first response packet, large blocks. The answer to the follow-up Ping behind the last packet in the same write (bytes read ahead); TestC08LongValuesReusedTargets (values to 2.5 MiB, several blocks into the same targets).",
+           "pauses inside packets, NoTimeout with a short handshake timeout, a gap before the first response packet, large blocks. The answer to the follow-up Ping behind the last packet in the same write (bytes read ahead); TestC08LongValuesReusedTargets (values to 2.5 MiB, several blocks into the same targets). Empty reads (zero-length segments), deadlines 30 ms behind the last packet in the gap families.",
     "C09": "Also: true in-place overwrite, steering to Preparable kinds, blocks of 4 KiB-1.3 MiB mostly as the tail sent with "
            "io.EOF, an earlier exchange on the same client. Rounds of exactly 127-129 and 16383-16385 rows.",
     "C10": "Also: 0-2 earlier exception queries on the same client, callbacks that fail with their own error once the context is "
-           "cancelled; a nil result after a cancellation in the middle of the exchange is a violation. Cancellation inside the dialer (handshake unit).",
+           "cancelled; a nil result after a cancellation in the middle of the exchange is a violation. Cancellation inside the dialer (handshake unit). A client returned over a connection the library closed is a violation; cancellation together with the release of a parked operation; transports whose Close reports an error; lower revisions on either side; unit TestC10TLSDialCancellation (real loopback, silent peer).",
     "C11": "Also: RST answers (reads and later writes fail), connections whose Close takes 2-7 ms of virtual time or returns an "
-           "error, construction unit (New/Dial with MinConns against a dialer refusing the k-th connection).",
+           "error, construction unit (New/Dial with MinConns against a dialer refusing the k-th connection). Exception chains cut inside the nested element; MinConns up to MaxConns+2 in the construction unit.",
     "C12": "Also: queries with settings, parameters and unnamed external tables, pool-wide Options.Settings with spare capacity, "
            "an earlier exchange on the same client, large blocks. Scenarios nested-queries (callbacks query other clients under their context) and string-consumer (strings from ForEach/Row/First copied by a worker while later blocks decode).",
     "C13": "Also: hello split into 2-3 pieces with pauses longer than the read timeout, a hello or exception cut short followed by "
-           "silence, all compression modes, an INSERT follow-up parsed at the negotiated revision, follow-ups bounded on the clock. Follow-up after idling past the handshake timeout: a statement with nothing bound answered by a 2/3-column schema block.",
+           "silence, all compression modes, an INSERT follow-up parsed at the negotiated revision, follow-ups bounded on the clock. Follow-up after idling past the handshake timeout: a statement with nothing bound answered by a 2/3-column schema block. Transports whose Close reports an error; a follow-up with an external table of columns and no rows.",
     "C14": "Also: LowCardinality dictionaries around the key-width boundaries, a writer created over a pre-filled buffer, every "
-           "catalog kind once per pass (TestEveryKindC14), blocks of 4095-10000 rows. Alphabet of 9 letters incl. Reset and ChainWrite from inside a ChainBuffer callback.",
+           "catalog kind once per pass (TestEveryKindC14), blocks of 4095-10000 rows. Alphabet of 9 letters incl. Reset and ChainWrite from inside a ChainBuffer callback. Unit TestC14HugeValuePaths (values of a mebibyte and more next to short ones).",
     "C15": "Also: WriteColumn through a writer over a pre-filled buffer, DecodeColumn from a reader that served reads before (zero "
            "rows too), one bad Bool byte at any position, every dual codec at 4097 / 8193 / 10000 rows. Encode into a zero-capacity buffer then reset and refill the column; decode behind the decompressor with a following frame.",
-    "C16": "Also: Enum and DateTime64 re-inference machines, in-place overwrite steps, block-level decode actions incl. zero rows. TestC16RawInputReuse (caller-built ColLowCardinalityRaw over several blocks); bulk appends from one reused, cleared scratch slice.",
+    "C16": "Also: Enum and DateTime64 re-inference machines, in-place overwrite steps, block-level decode actions incl. zero rows. TestC16RawInputReuse (caller-built ColLowCardinalityRaw over several blocks); bulk appends from one reused, cleared scratch slice. Values of a mebibyte and more in one history in 25; enum definitions switching base with equal members; the raw LowCardinality unit alternates decoding and rebuilding and switches key widths.",
     "C17": "Also: zero-row schema blocks (header + column descriptors, also inside a compressed frame), strings on both "
            "length-prefix boundaries and longer than the reader's 128 KiB buffer. Setting/parameter lists of 255-16385 entries; schema blocks into a reused ColInfoInput.",
     "C18": "Also: classes auto-targets-enforced (Results.Auto() targets held to count, names and types on later blocks), "
            "autoresult-reinferred (AutoResult targets reused across blocks of changing types), map-of-two-inferables, generated "
-           "enum definitions (blanks in names), Enum16/Int16 in both directions; every decode must consume the whole block. Classes rows-without-columns and array-datetime-zone; schema headers into ColInfoInput.",
+           "enum definitions (blanks in names), Enum16/Int16 in both directions; every decode must consume the whole block. Classes rows-without-columns and array-datetime-zone; schema headers into ColInfoInput. Enum base switch on a reused target; class names-differ-by-case.",
     "C19": "Also: soundness of 12 typed inferable target shapes (the reported type carries every requested parameter), several "
            "blanks or a tab after commas, token-soup parameter lists. A second block through the same inferred column.",
     "C20": "Also: interval spans over the whole 1900-2299 range and five daylight-saving zones (calendar-day oracle), Date / "
